@@ -73,8 +73,10 @@ func (x *vtx) scrollArmForms() (moveBad, clearBad, pairBad string) {
 		for b := range lf.Body {
 			set[b] = true
 		}
-		for _, p := range lf.Header.Preds {
-			set[p] = true
+		if !(lf.Exit >= 0 && g.Ins[lf.Exit].Block() == lf.Header) {
+			for _, p := range lf.Header.Preds {
+				set[p] = true
+			}
 		}
 	}
 	// ---- the move
